@@ -277,16 +277,41 @@ def run(ctx: Ctx) -> None:
     process_reads(ctx, "C02.R1", RESOLVER_MODULES)
 
     # ---- R2 -------------------------------------------------------------------------------
-    comp = composer(ctx)
-    uses = [n for n in comp.own_nodes() if isinstance(n, ast.Attribute) and n.attr == "inner_call_key"]
-    cfg = cfg_of(comp)
+    comp0 = composer(ctx)
+    # the composer, and the helpers of its module that it hands the argument context to (`... + _arg_sig_pairs(arg_ctx, body_sig)`)
+    scopes2 = [comp0]
+    for c_ in comp0.own_nodes():
+        if isinstance(c_, ast.Call):
+            for g_ in prog.callees(comp0, c_, ctx._types)[0]:
+                if g_.module is comp0.module and g_ not in scopes2 and any(isinstance(n, ast.Attribute) and n.attr == "inner_call_key" for n in g_.own_nodes()):
+                    scopes2.append(g_)
     n2 = 0
-    for u in uses:
+    for comp in scopes2:
+      uses = [n for n in comp.own_nodes() if isinstance(n, ast.Attribute) and n.attr == "inner_call_key"]
+      cfg = cfg_of(comp)
+      from ..flow import flow_of as _flow2
+      fl2 = _flow2(prog, comp)
+
+      def _about_args(e_: ast.AST) -> bool:
+          if "named_args" in unparse(e_, 300):
+              return True
+          for y_ in ast.walk(e_):
+              if isinstance(y_, ast.Name) and isinstance(y_.ctx, ast.Load):
+                  try:
+                      if any(d_.value is not None and "named_args" in unparse(d_.value, 200) for d_ in fl2.defs_of_use(y_)):
+                          return True
+                  except Exception:
+                      pass
+          return False
+      for u in uses:
         st = prog.enclosing_stmt(comp.module, u)
         if isinstance(st, ast.Assert):
             continue
         n2 += 1
         guard = [b for b in cfg.nodes if b.kind == "branch" and b.label == "T" and b.ast is not None and "is None" in unparse(b.ast) and "named_args" in unparse(b.ast)]
+        # `if all(sig is not None for sig in <the argument hashes>): return <the pairs>` - what follows runs when some hash is None
+        guard += [b for b in cfg.nodes if b.kind == "branch" and b.ast is not None and _about_args(b.ast) and (
+            (b.label == "T" and "any(" in unparse(b.ast) and "is None" in unparse(b.ast)) or (b.label == "F" and unparse(b.ast).startswith("all(") and "is not None" in unparse(b.ast)))]
         w = dominated(ctx, comp, u, guard)
         desc = "the call-context key enters the signature only when an argument has no static hash"
         if w is None:
